@@ -11,29 +11,29 @@ TRUST = ("Trusted: Verus 0.2026.09.13+Z3, Kani 0.68+CBMC 6.11; the extractor's r
 
 CLAIMS = {
     # id: (decided text, outside text, technique, design_ref)
-    'C01': ("Decided for all inputs (Verus, unbounded): the durability chain Session::commit_transaction -> TransactionLogger::{log_commit, log_end} -> Pager::{push_to_log, flush_wal} -> WriteAheadLog::{push, perform_flush}: when COMMIT returns Ok the transaction's COMMIT record is in what a reader obtains from the log file; every single block write the force issues only ever EXTENDS the readable log (crash cut between any two writes loses no forced record); block zero is written after the blocks it accounts for; dropping a committed session appends nothing.",
-            "Outside (not claimed): that recovery's analysis+redo re-execution rebuilds table contents from the log (logical DML/DDL through every layer), the autocommit closures in Database::execute, torn block writes, Pager::flush's checkpoint loop.",
+    'C01': ("Decided for all inputs (Verus, unbounded): the durability chain Session::commit_transaction -> TransactionLogger::{log_commit, log_end} -> Pager::{push_to_log, flush_wal} -> WriteAheadLog::{push, perform_flush}: when COMMIT returns Ok the transaction's COMMIT record is in what a reader obtains from the log file; every single block write the force issues only ever EXTENDS the readable log (crash cut between any two writes loses no forced record); block zero is written after the blocks it accounts for; dropping a committed session appends nothing; the analysis pass of recovery puts exactly the transactions whose last status record is COMMIT into the redo set (loop invariant over the whole log, any log); a checkpoint (Pager::flush) leaves an openable, empty log with every dirty page and the header written.",
+            "Outside (not claimed): that redo re-execution rebuilds table contents from the analysis result (logical DML/DDL through every layer), the relative order of page writes and log truncation inside the checkpoint, the autocommit closures in Database::execute, torn block writes, Pager::flush's checkpoint loop.",
             "Verus contracts on verbatim-extracted functions; crash cuts as preconditions of the file-write primitive", "4 C01, Appendix A.2"),
-    'C02': ("Decided: ROLLBACK/abandoned sessions append an ABORT record of their own transaction before END (Verus, chain Session::abort_transaction -> log_abort -> push_to_log); Session::drop aborts only open transactions; the aborted-transaction bitmap in page zero records and reports every tracked id exactly, without touching other ids or header fields (Kani, full domain).",
-            "Outside: WriteAheadLog::run_analysis classification loop, WalRecuperator undo/redo application, page steal/write-back interplay; ids >= 8192 are a recorded known finding (C09).",
+    'C02': ("Decided: ROLLBACK/abandoned sessions append an ABORT record of their own transaction before END (Verus, chain Session::abort_transaction -> log_abort -> push_to_log); Session::drop aborts only open transactions; WriteAheadLog::run_analysis computes redo = {last status record is COMMIT}, undo = {begun and not redone} and keys every DML/DDL record by its own LSN, for every log (Verus, loop invariant; lemma: the two sets are disjoint when ids are not reused); the aborted-transaction bitmap in page zero records and reports every tracked id exactly (Kani, full domain) and get_aborted_transactions reloads exactly the recorded ids (Verus).",
+            "Outside: WalRecuperator undo/redo application, page steal/write-back interplay; ids >= 8192 are a recorded known finding (C09).",
             "Verus contracts on extracted functions + complete Kani harnesses / function contract on the real crate", "4 C02"),
-    'C03': ("Decided for all inputs: a version created or deleted by an aborted transaction is treated by the visibility predicate exactly as if that transaction never ran (aborted creator => invisible, aborted deleter => ignored), and TransactionCoordinator::snapshot copies the full aborted and active sets into every snapshot.",
+    'C03': ("Decided for all inputs: a version created or deleted by an aborted transaction is treated by the visibility predicate exactly as if that transaction never ran (aborted creator => invisible, aborted deleter => ignored), TransactionCoordinator::snapshot copies the full aborted and active sets into every snapshot, and Tuple::delete stores exactly the deleter's id and nothing else (Kani on real bytes, every id below 2^63).",
             "Outside: TransactionCoordinator::abort, statement-level atomicity of the executors, Tuple::add_version_with stamping (known defect, pinned test asserts it), DDL rollback.",
             "Verus postconditions on verbatim-extracted functions", "4 C03"),
-    'C04': ("Decided for all inputs: the visibility predicate (Snapshot::is_committed_before_snapshot, is_tuple_visible, TupleLayout::is_valid_for_snapshot) equals the snapshot-isolation rule 'creator is the reader or committed before the reader began, deleter is neither'; TransactionCoordinator::snapshot always records an upper bound and the active/aborted sets; a lemma connects the predicate to a ghost history; repeatability (verdict is a function of snapshot and version header).",
-            "Outside: write-write conflict validation (validate_write_set/commit), the version-chain walk on raw tuple bytes, executors, schedules.",
+    'C04': ("Decided for all inputs: the visibility predicate (Snapshot::is_committed_before_snapshot, is_tuple_visible, TupleLayout::is_valid_for_snapshot) equals the snapshot-isolation rule 'creator is the reader or committed before the reader began, deleter is neither'; TransactionCoordinator::snapshot always records an upper bound and the active/aborted sets; a lemma connects the predicate to a ghost history; repeatability (verdict is a function of snapshot and version header); TransactionCoordinator::commit never moves the snapshot horizon backwards; validate_write_set reports a conflict whenever a written tuple was committed at or after the writer's start, and otherwise stamps every written tuple with the commit timestamp it drew (first-committer-wins bookkeeping, sequential lock semantics).",
+            "Outside: that the executors call record_write (they do not today), the version-chain walk on raw tuple bytes, executors, schedules.",
             "Verus postconditions on verbatim-extracted functions", "4 C04, Appendix A.1"),
-    'C05': ("Decided (Kani on the real evaluator, complete over the stated domains): AND/OR/NOT are Kleene three-valued logic over all 9/3 operand combinations; =,<>,<,<=,>,>= on INT agree with integer order for every pair; NULL operands propagate through every comparison and arithmetic operator; boolean context maps NULL to false; column bindings are bounds-checked; 32-bit add/sub are exact; arithmetic on non-numerics is an error.",
+    'C05': ("Decided (Kani on the real evaluator, complete over the stated domains): AND/OR/NOT are Kleene three-valued logic over all 9/3 operand combinations; =,<>,<,<=,>,>= on INT agree with integer order for every pair; NULL operands propagate through every comparison and arithmetic operator; boolean context maps NULL to false; column bindings are bounds-checked; 32-bit add/sub are exact; arithmetic on non-numerics is an error; the ORDER BY comparator is antisymmetric, transitive and follows integer order / direction for every INT/NULL key.",
             "Outside: IS NULL/BETWEEN/IN arms inside evaluate() (beyond the model checker's capacity here, DESIGN M15), parser precedence, joins, grouping, sort, DISTINCT, LIMIT, DML row addressing; induction over expression depth is stated, not machine-checked.",
             "complete Kani harnesses (loop-free, full-domain) on the real crate", "4 C05"),
-    'C09': ("Decided (Kani, full domain): page-zero header state that must survive close/reopen -- aborted bitmap set/test/clear exactness and frame, header construction (counters, config fields, aligned page size).",
+    'C09': ("Decided (Kani, full domain): page-zero header state that must survive close/reopen -- aborted bitmap set/test/clear exactness and frame, header construction (counters, config fields, aligned page size); reload of the bitmap returns exactly the recorded ids; a checkpoint writes the header and every dirty page and leaves an openable empty log (Verus).",
             "Outside: catalog rows, free-list contents, overflow chains across reopen, Pager::sync_header I/O; ids >= 8192 are dropped by the bitmap (recorded known finding).",
             "complete Kani harnesses + an injected Kani function contract on the real crate", "4 C09"),
     'C10': ("Decided for all inputs (Verus): Btree::binary_search_page finds a key iff it is present on a sorted page and terminates; Btree::find_child_on_page routes to the child of the first separator greater than the key, else the right child; every cell index stays in bounds.",
             "Outside: insert/remove/balance (800 lines over pager-backed pages), sibling links, overflow reassembly, the comparator's own correctness (assumed total order; see C19).",
             "Verus contracts with loop invariants on verbatim-extracted functions", "4 C10"),
-    'C12': ("Decided for all inputs (Verus): the page cache never loses a frame -- insert/evict/remove/clear keep every cached frame unless it is handed back to the caller, evict only free frames and always finds one if any exists, out-of-memory only when every frame is pinned, clear keeps the configured capacity; (Kani, full domain) DBConfig::new and the builder clamp page size to a power of two in [4096, 65536] for every input.",
-            "Outside: equality of results across configurations end-to-end, Pager::cache_frame write-back, dirty marking, worker pool.",
+    'C12': ("Decided for all inputs (Verus): the page cache never loses a frame -- insert/evict/remove/clear keep every cached frame unless it is handed back to the caller, evict only free frames and always finds one if any exists, out-of-memory only when every frame is pinned, clear keeps the configured capacity; Pager::cache_frame writes every dirty evictee back as a whole page at its own page id before it leaves the cache; (Kani, full domain) DBConfig::new and the builder clamp page size to a power of two in [4096, 65536] for every input.",
+            "Outside: equality of results across configurations end-to-end, dirty marking on latches, worker pool.",
             "Verus contracts on extracted functions + complete Kani harnesses", "4 C12"),
     'C16': ("Decided (Kani): panic-freedom obligations of leaf functions for every input value -- casts, VarInt decoding of arbitrary bytes, evaluator column binding, wire decoders on arbitrary short byte strings, DBConfig::new.",
             "Outside: parser/binder/planner on arbitrary strings, worker loss/hang, post-error state; integer overflow and division by zero in DataType arithmetic and unary minus on MIN are recorded known findings.",
@@ -41,13 +41,13 @@ CLAIMS = {
     'C17': ("Decided for all inputs and all operation sequences satisfying the log invariant (Verus, unbounded): append = sequence push (oversize rejected, state unchanged), block-zero-first placement never reorders, rotation conserves records, force makes disk_log == appended sequence, later forces never overwrite earlier blocks, truncate empties, the log's last LSN is global and push_to_log issues strictly increasing LSNs.",
             "Outside: WalReader (read-ahead cursor) and the byte layout of blocks/records (MemBlock raw-pointer code) are the trusted environment of this unit.",
             "Verus contracts with data-structure invariant + abstract view on verbatim-extracted functions", "4 C17, Appendix A.2"),
-    'C18': ("Decided: NULL-bitmap addressing is an inverse pair, bitmap size/alignment/key offset arithmetic, header id encoding round-trips for ids < 2^63 (Kani, full domain); which version a snapshot is entitled to (Verus, unit snapshot: version.exact).",
+    'C18': ("Decided: NULL-bitmap addressing is an inverse pair, bitmap size/alignment/key offset arithmetic, header id encoding round-trips for ids < 2^63, Tuple::delete on real bytes (Kani, full domain); which version a snapshot is entitled to (Verus, unit snapshot: version.exact).",
             "Outside: the byte codec (TupleBuilder::build / parse_*), delta chains, vacuum trimming -- beyond the model checker's capacity on this code base (DESIGN M7b).",
             "complete Kani harnesses + Verus postconditions", "4 C18"),
-    'C19': ("Decided (Kani, every value of every fixed-width type): == symmetric/reflexive, partial_cmp total, antisymmetric and consistent with ==, equal values feed equal hasher input, for all 21 kind pairs (non-NaN); integer equality/order agree with mathematical value for all pairs with a 32-bit side; casts are value-preserving or refused; VarInt/ZigZag codec round-trips.",
-            "Outside: Blob ordering (bounded unit not built), ORDER BY/DISTINCT operators; comparisons between two 64-bit integers go through f64 (3 recorded known findings).",
+    'C19': ("Decided (Kani, every value of every fixed-width type): == symmetric/reflexive, partial_cmp total, antisymmetric and consistent with ==, equal values feed equal hasher input, for all 21 kind pairs (non-NaN); integer equality/order agree with mathematical value for all pairs with a 32-bit side; casts are value-preserving or refused; VarInt/ZigZag codec round-trips; bounded: text/blob order is bytewise lexicographic (payload lengths 2/3, 9/9, 9/10, every content), the ORDER BY comparator is a consistent total preorder.",
+            "Outside: Blob ordering beyond the stated lengths, ORDER BY/DISTINCT operators; comparisons between two 64-bit integers go through f64 (3 recorded known findings).",
             "complete Kani harnesses (loop-free, full-domain) on the real crate", "4 C19"),
-    'C20': ("Decided (Kani, complete): status codes are a bijection; every command/status byte decodes to exactly its unit request/response or an error, a wrong version byte is always an error; Analyze, RowsAffected and VacuumComplete frames decode to exactly the little-endian fields of every payload and encode to exactly that layout for every field value (so they round-trip); every byte string of length 0..3 is answered with Ok/Err without panic; the frame reader rejects every announced length above 16 MiB before reading or allocating.",
+    'C20': ("Decided (Kani, complete): status codes are a bijection; every command/status byte decodes to exactly its unit request/response or an error, a wrong version byte is always an error; Analyze, RowsAffected and VacuumComplete frames decode to exactly the little-endian fields of every payload and encode to exactly that layout for every field value (so they round-trip); every byte string of length 0..3 is answered with Ok/Err without panic; the frame reader rejects every announced length above 16 MiB before reading the body and accepts everything the writer accepts (Verus on read_message/write_message, all lengths).",
             "Outside: string-carrying frames and Rows result sets (String / Vec<Vec<String>> decoding is beyond the model checker's capacity on this code, DESIGN M16), the untrusted column/row counts passed to Vec::with_capacity, sockets, server rendering.",
             "complete Kani harnesses on the real crate", "4 C20"),
 }
